@@ -1138,7 +1138,7 @@ func (g *p2pRig) coStep() {
 		g.afterDeliver(c)
 	}
 	// ... a connected node asks for headers (the service consults its sync state on that peer's goroutine) ...
-	if hs := g.liveConns(func(c *nodeConn) bool { return c.handshaken() && !c.partitioned }); len(hs) > 0 && t.Chance(1, 2, "co-getheaders") {
+	if hs := g.liveConns(func(c *nodeConn) bool { return c.handshaken() && !c.partitioned }); len(hs) > 0 && t.Chance(3, 4, "co-getheaders") {
 		c := hs[t.Draw(len(hs), "co-getheaders-idx")]
 		gh := wire.NewMsgGetHeaders()
 		gen, _ := chainhash.NewHashFromStr(g.tree.Genesis.HashStr())
